@@ -21,6 +21,9 @@ pub enum Op {
     Long { stmt: usize, param: u16, data: Vec<u8> },
     /// another command in between
     Ping,
+    /// PREPARE answered again with the same id and parameter count (a shim that hands out the
+    /// same id for the same text): the statement starts afresh
+    Reprepare { stmt: usize },
 }
 
 #[derive(Clone, Debug, Serialize, Deserialize)]
@@ -44,6 +47,12 @@ pub fn build_history(case: &Case) -> (Conversation, Vec<(u32, Vec<(u8, Inner, Op
     for op in &case.ops {
         match op {
             Op::Ping => cmds.push(Cmd::Ping),
+            Op::Reprepare { stmt } => {
+                let (id, n) = case.stmts[*stmt];
+                cmds.push(Cmd::Prepare { text: Blob::text("p") });
+                actions.push(Action::Prepare(PrepProg::Reply { id, params: (0..n).map(|i| ColSpec::simple(&format!("p{}", i), T_VAR_STRING, 0)).collect(), cols: vec![] }));
+                pending.retain(|(s, _), _| s != stmt);
+            }
             Op::Long { stmt, param, data } => {
                 cmds.push(Cmd::LongData { id: case.stmts[*stmt].0, param: *param, data: Blob::Lit(data.clone()) });
                 pending.entry((*stmt, *param)).or_default().extend_from_slice(data);
